@@ -29,6 +29,10 @@ EXAMPLES = [
     {"params": [10, 11], "stmts": [("a", 0, ("u", "i2c", 10)), ("a", 10, ("b", "%", 10, 11)), ("a", 1, ("b", "+", 0, 10)), ("r", 1)]},
     {"params": [10, 11], "stmts": [("a", 0, ("u", "i2c", 10)), ("a", 10, ("b", "%", 10, 11)), ("a", 1, ("b", "+", 10, 0)), ("r", 1)]},
     {"params": [10], "stmts": [("a", 0, ("f", 1, 10)), ("a", 1, ("f", 2, 10)), ("a", 2, ("b", "+", 1, 0)), ("r", 2)]},
+    # dead division (the witness of dce_removes_throwing_division_refuted): v0 = p10 / p11; return p10
+    {"params": [10, 11], "stmts": [("a", 0, ("b", "/", 10, 11)), ("r", 10)]},
+    # a dead chain and a call whose result is unused
+    {"params": [10, 11], "stmts": [("a", 0, ("b", "+", 10, 11)), ("a", 1, ("u", "neg", 0)), ("a", 2, ("f", 0, 10)), ("a", 3, ("b", "*", 1, 1)), ("r", 11)]},
 ]
 
 
@@ -175,15 +179,35 @@ def show_ins(ir, s) -> str:
     return "%s = %s" % ("_" if s.lhs is None else s.lhs, show_expr(ir, s.rhs))
 
 
+def _left(ir, node):
+    left = list(node.get_loc_with_ins())
+    return " ; ".join("%d: %s" % (loc, show_ins(ir, s)) for loc, s in left), [show_ins(ir, s) for _, s in left]
+
+
 def real_pass(mods, block):
-    """(canonical text of the instructions left, [(loc, real instruction)])"""
+    """register_propagation alone: (instruction texts before, canonical text after, instruction texts after)"""
     ir, df, gr, bb = mods
     g, node = build_real(mods, block)
     before = [show_ins(ir, s) for _, s in node.get_loc_with_ins()]
     ud, du = df.build_def_use(g, list(block["params"]))
     df.register_propagation(g, du, ud)
-    left = list(node.get_loc_with_ins())
-    return before, " ; ".join("%d: %s" % (loc, show_ins(ir, s)) for loc, s in left), [show_ins(ir, s) for _, s in left]
+    return (before,) + _left(ir, node)
+
+
+def real_dce(mods, block):
+    """dead_code_elimination, then register_propagation on the same chains (the order of the pipeline):
+    (canonical text after the first, texts after the first, canonical text after both, texts after both)"""
+    ir, df, gr, bb = mods
+    g, node = build_real(mods, block)
+    ud, du = df.build_def_use(g, list(block["params"]))
+    df.dead_code_elimination(g, du, ud)
+    t1, l1 = _left(ir, node)
+    try:
+        df.register_propagation(g, du, ud)
+        t2, l2 = _left(ir, node)
+    except Exception as e:  # noqa
+        t2, l2 = "raised:" + type(e).__name__, None
+    return t1, l1, t2, l2
 
 
 # ------------------------------------------------------------------------------------------ independent evaluator
@@ -344,9 +368,76 @@ def leg(ck, drv, n):
                 "register_propagation run alone on one basic block (real IR classes, real build_def_use) changes what the block computes",
                 key, expected=list(bad[1]), observed={"after": after, "outcome": list(bad[2])})
     ck.compare("register_propagation on one basic block (real IR, real chains)", reqs, real, model)
+    # dead_code_elimination alone, and the two passes in the order of the pipeline
+    reqs_d = ["dce" + r[4:] for r in reqs]
+    reqs_p = ["dceprop" + r[4:] for r in reqs]
+    rep_d, rep_p = drv.ask(reqs_d), drv.ask(reqs_p)
+    real_d, real_p = [], []
+    st.update({"dce_blocks_changed": 0, "dce_blocks_changed_and_safe": 0, "dce_meaning_changed": 0, "dce_then_propagation_meaning_changed": 0,
+               "dce_then_propagation_single_definition_meaning_changed": 0})
+    for b, rq, rd in zip(blocks, reqs_d, rep_d):
+        try:
+            g, node = build_real(mods, b)
+            before = [show_ins(mods[0], s) for _, s in node.get_loc_with_ins()]
+            t1, l1, t2, l2 = real_dce(mods, b)
+        except Exception as e:  # noqa
+            real_d.append("raised:" + type(e).__name__)
+            real_p.append("raised:" + type(e).__name__)
+            continue
+        real_d.append("ins=" + t1)
+        real_p.append("ins=" + t2 if l2 is not None else t2)
+        is_safe = " | safe=true" in rd
+        st["dce_blocks_changed"] += before != l1
+        st["dce_blocks_changed_and_safe"] += is_safe and before != l1
+        for stage, after in (("dce", l1), ("dceprop", l2)):
+            if after is None:
+                continue
+            bad = None
+            for vals in ENVS:
+                env = {r: vals[r % len(vals)] for r in range(32)}
+                o1, o2 = evaluate(before, env), evaluate(after, env)
+                if o1 != o2:
+                    bad = (vals, o1, o2)
+                    break
+            if not bad:
+                continue
+            has_div = _has(b, lambda e: e[0] == "b" and e[1] in "/%")
+            if stage == "dce":
+                st["dce_meaning_changed"] += 1
+                if is_safe:
+                    ck.fail({"kind": "dce-safe-block", "request": rq, "registers": bad[0]},
+                            "the model calls every deletion of dead_code_elimination on the block justified but the real pass changes "
+                            "what it computes", None, expected=list(bad[1]), observed={"after": after, "outcome": list(bad[2])})
+                else:
+                    ck.fail({"kind": "dce-block", "block": {"params": b["params"], "stmts": b["stmts"]}, "request": rq, "registers": bad[0]},
+                            "dead_code_elimination on one basic block (real IR classes, real build_def_use) changes what the block computes",
+                            "division-not-a-side-effect" if has_div else None,
+                            expected=list(bad[1]), observed={"after": after, "outcome": list(bad[2])})
+                break
+            st["dce_then_propagation_meaning_changed"] += 1
+            st["dce_then_propagation_single_definition_meaning_changed"] += bool(b.get("single"))
+            if not has_div and not _has(b, lambda e: e[0] == "f") and not b.get("single"):
+                # a register assigned twice: not what split_variables hands over for one block; counted (the lost cast of
+                # `p10 = (byte) p10; v1 = - p10` after `p10 = ...`: a cast of a Param is_const() and replace() overwrites it)
+                st["dce_then_propagation_multi_definition_pure_meaning_changed"] = st.get(
+                    "dce_then_propagation_multi_definition_pure_meaning_changed", 0) + 1
+            elif not has_div and not _has(b, lambda e: e[0] == "f"):
+                # single definitions, within the int subset of the property and no division: a failing input
+                key = classify(b)
+                if key is not None and " | safe=true" not in rep_p[reqs_d.index(rq)]:
+                    ck.fail({"kind": "dce-propagation-block", "block": {"params": b["params"], "stmts": b["stmts"]}, "registers": bad[0]},
+                            "dead_code_elimination then register_propagation on one basic block change what the block computes",
+                            key, expected=list(bad[1]), observed={"after": after, "outcome": list(bad[2])})
+                else:
+                    ck.fail({"kind": "dce-propagation-block", "block": {"params": b["params"], "stmts": b["stmts"]}, "registers": bad[0]},
+                            "dead_code_elimination then register_propagation change what a block without invoke and division computes",
+                            None, expected=list(bad[1]), observed={"after": after, "outcome": list(bad[2])})
+    ck.compare("dead_code_elimination on one basic block (real IR, real chains)", reqs_d, real_d, [r.split(" | ")[0] for r in rep_d])
+    ck.compare("dead_code_elimination then register_propagation on one basic block", reqs_p, real_p, [r.split(" | ")[0] for r in rep_p])
     if unclassified:
         ck.notes.append("register_propagation run alone on generated one-block inputs changed the meaning of %d blocks that match no "
-                        "known-finding key of C21 (an invoke is reordered with another invoke or loses a cast: outside the int/long "
+                        "known-finding key of C21 (an invoke is reordered with another invoke, is duplicated - `x = f(); y = x + x` becomes "
+                        "`f() + f()`, the single use is counted per instruction - or loses a cast: outside the int/long "
                         "subset of the property); first: %s" % (st["propagation_meaning_changed_unclassified"], unclassified[0]))
     ck.cover(evaluations=len(blocks), distinct=(r for r in reqs), samples=[{"request": reqs[0], "real": real[0]}], dist=st)
 
